@@ -82,6 +82,39 @@ pub fn run(ctx: &Ctx) {
         }
     });
 
+    // history: right after a successful verification, variants of the same signature that differ
+    // only in integer fields (upper-level q, type codes, Nspk, pk.L / types) must still be rejected.
+    // One item, one thread, so that nothing else is verified in between.
+    ctx.single("verify_after_success", 0u8, |_| {
+        let mut checked = 0u32;
+        for (bi, b) in pool.iter().enumerate() {
+            if b.levels.len() < 3 || b.key_id != 0 || b.counter != 0 {
+                continue;
+            }
+            let m = Model::with_overrides(b.hash, &ov);
+            for kind in [wire::FieldKind::Q, wire::FieldKind::OtsType, wire::FieldKind::LmsType, wire::FieldKind::Nspk, wire::FieldKind::PkL, wire::FieldKind::PkOtsType, wire::FieldKind::PkLmsType, wire::FieldKind::SpkOtsType] {
+                for level in 0..(b.levels.len() as u8).min(3) {
+                    for edit in [wire::Edit::Inc, wire::Edit::Set(1)] {
+                        // the genuine triple first (a success) ...
+                        if !libapi::verify(b.hash, libapi::VerifyEntry::Function, &b.msg, &b.sig, &b.pk).is_ok() {
+                            return fail("lib-rejects-model-accepts unmutated", "genuine pool triple rejected");
+                        }
+                        // ... then the variant
+                        let (t, class) = wire::apply(pool, bi, &Mutation::Field { field: wire::FieldSel { kind, level, idx: 0 }, edit });
+                        if t.sig == b.sig && t.pk == b.pk {
+                            continue;
+                        }
+                        if let Err((k, e)) = differential(&m, b.hash, &t.msg, &t.sig, &t.pk, class) {
+                            return fail(format!("{} after-success", k), format!("{} [right after a successful verification of the unmodified signature; {:?} level {} {:?}]", e, kind, level, edit));
+                        }
+                        checked += 1;
+                    }
+                }
+            }
+        }
+        pass(format!("after-success|{}", if checked > 300 { "many" } else { "few" }), true)
+    });
+
     // every message length 0..=200 for every hash: the genuine message is accepted, the same
     // message with its last byte (or, if empty, its length) changed is rejected
     ctx.enumerate("message_length_tamper", 6 * 201 * 2, true, |i| ((i / 402) as u8, ((i % 402) / 2) as u16, (i % 2) as u8), |c: &(u8, u16, u8)| {
